@@ -14,7 +14,7 @@ package interp
 // - string
 // - map[value]value --- maps for which  usesBuiltinMap(keyType)
 //   *hashmap        --- maps for which !usesBuiltinMap(keyType)
-// - chan value
+// - *chanObj
 // - []value --- slices
 // - iface --- interfaces.
 // - structure --- structs.  Fields are ordered and accessed by numeric indices.
@@ -35,7 +35,6 @@ package interp
 // The compiler cannot help you since value is an empty interface.
 
 import (
-	"reflect"
 	"bytes"
 	"fmt"
 	"go/types"
@@ -230,8 +229,8 @@ func equals(t types.Type, x, y value) bool {
 		return x == y.(string)
 	case *value:
 		return x == y.(*value)
-	case chan value:
-		return x == y.(chan value)
+	case *chanObj:
+		return x == y.(*chanObj)
 	case structure:
 		return x.eq(t, y)
 	case array:
@@ -291,8 +290,8 @@ func hash(outer, t types.Type, x value) int {
 		return hashString(x)
 	case *value:
 		return int(uintptr(unsafe.Pointer(x)))
-	case chan value:
-		return int(uintptr(reflect.ValueOf(x).Pointer()))
+	case *chanObj:
+		return int(uintptr(unsafe.Pointer(x)))
 	case structure:
 		return x.hash(t)
 	case array:
@@ -390,8 +389,8 @@ func writeValue(buf *bytes.Buffer, v value) {
 		}
 		buf.WriteString("]")
 
-	case chan value:
-		fmt.Fprintf(buf, "%v", v) // (an address)
+	case *chanObj:
+		fmt.Fprintf(buf, "%p", v) // (an address)
 
 	case *value:
 		if v == nil {
